@@ -629,10 +629,25 @@ pub fn insert<S: Src, K: Skel, const SEC: u8>(s: &mut S) -> Verdict {
 /// the cached question must not survive the change.
 pub fn cache_then_set_question<S: Src, K: Skel, N: NewName>(s: &mut S) -> Verdict {
     let p = K::build(s);
+    let name1 = build_name::<S, Nm<3, 0, false>>(s);
     let name = build_name::<S, N>(s);
     let mut pp = parse_ok::<S>(&p)?;
-    let warm = pp.question_raw0().is_some();
-    vassert!(warm, "question_raw0() on an accepted packet");
+    // step 1: a first rename of the question (this also decompresses the packet, after
+    // which later operations no longer go through recompute())
+    let mut ok1 = false;
+    let mut cur = pp.into_iter_question();
+    while let Some(mut it) = cur {
+        ok1 = it.set_raw_name(&name1).is_ok();
+        break;
+    }
+    vassert!(ok1, "set_raw_name on the question succeeds");
+    // step 2: fill the cache
+    let warm = match pp.question_raw0() {
+        Some((n, _, _)) => slices_eq(n, &name1),
+        None => false,
+    };
+    vassert!(warm, "question_raw0() returns the question just set");
+    // step 3: rename the question again
     let mut ok = false;
     let mut cur = pp.into_iter_question();
     while let Some(mut it) = cur {
